@@ -221,7 +221,7 @@ def main(out_path):
             'over-long step: `s = z + tb * d;` (the non-negative root)')
     if not re.search(r'return\s+eval\(s\)\s*;', over):
         raise TranslationError('over-long branch: `return eval(s);` not found')
-    resid = cp.find_statement(loop, r'\br\s*\+=') + '\n' + cp.find_statement(loop, r'real_t\s+r_next_sq\s*=') + \
+    resid = cp.find_statement(loop, r'\br\s*[-+*/]=\s*alpha') + '\n' + cp.find_statement(loop, r'real_t\s+r_next_sq\s*=') + \
         '\n' + cp.find_statement(loop, r'real_t\s+r_next\s*=')
     G.stmts('cgResidual', resid, P('r', tag='V') + P('alpha') + P('Bd', tag='V'),
             ['r', 'r_next_sq', 'r_next'], {'r': 'V'},
